@@ -326,6 +326,65 @@ Proof.
 Qed.
 End C03EquExample.
 
+(* ... AND ;assert LINES: the two theorems above cover them as well - a document may hold, anywhere among its lines,
+   comment lines `;assert<text>` whose text the lexer turns into the tokens of a condition (C03EquCompile.assert_comment);
+   the program (Prog.IAssert items) has a meaning only when every condition has a value other than zero
+   (Meaning.assertions), and then the assembler - which evaluates them with the definitions as written, at line 0,
+   before it resolves the EQU values (C03Equ.raw_by_passes, C03EquCompile.operand_raw, r2_assertions) - lets it pass.
+   The example: the condition uses an EQU name that depends on another one and is substituted textually
+   (step-4 = 3+1*2-4 = 1) *)
+Module C03AssertExample.
+Import C03EquExample.
+Definition e_cond : nexpr := NBin OSub (NName 20) (NLit 4).
+Definition its' : list Prog.item :=
+  [ IEqu 20 e_step; IEqu 21 e_gap; IAssert e_cond;
+    IInstr (mkIL [10%N] MOV None (mkOp None (NName 11)) (Some (mkOp (Some B_INDIRECT) (NName 20))));
+    IInstr (mkIL [] ADD None (mkOp (Some IMMEDIATE) (NName 21)) (Some (mkOp None (NName 10))));
+    IInstr (mkIL [11%N] DAT None (mkOp (Some IMMEDIATE) (NLit 0)) (Some (mkOp (Some IMMEDIATE) (NBin OSub (NName 20) (NLit 1))))) ].
+Definition es' : list (lelem * nat) :=
+  [ (LEqu [LName (s2t "step")] (s2t "equ") (etoks spell e_step) None, 1%nat);
+    (LEqu [LName (s2t "gap"); LColon] (s2t "EQU") (etoks spell e_gap) (Some (s2t "; the gap")), 1%nat);
+    (LComment (s2t ";assert step - 4"), 1%nat);
+    (LDir (s2t "org") (etoks spell e_org) None, 1%nat);
+    (LInstr (mkTL [LName (s2t "start")] (s2t "mov") None (etoks spell (NName 11)) (Some (Some 64%N, etoks spell (NName 20))) None), 2%nat);
+    (LInstr (mkTL [] (s2t "add") (Some 35%N) (etoks spell (NName 21)) (Some (None, etoks spell (NName 10))) None), 1%nat);
+    (LInstr (mkTL [LName (s2t "bomb")] (s2t "dat") (Some 35%N) (etoks spell (NLit 0))
+                  (Some (Some 35%N, etoks spell (NBin OSub (NName 20) (NLit 1)))) None), 1%nat) ].
+Definition source' : text :=
+  s2t "step equ gap*2" ++ [10%N] ++ s2t "gap: EQU 3+1 ; the gap" ++ [10%N] ++ s2t ";assert step - 4" ++ [10%N] ++ s2t " org bomb-1" ++ [10%N]
+  ++ s2t "start mov bomb, @step" ++ [10; 10]%N ++ s2t " add #gap, start" ++ [10%N] ++ s2t "bomb dat #0, #step-1" ++ [10%N].
+
+Example hypotheses_hold' :
+  (validate cfg94 = true) /\ spell_ok spell (flat_map il_labels (instrs its') ++ map fst (equs its')) /\
+  renders_doc2 spell (Some e_org) its' es' /\ shape2_ok es' /\ Forall (fun xk => (1 <= snd xk)%nat) es' /\
+  ranked spell (equs its') rkN /\ bodies_known cfg94 its' /\
+  (meaning (mconf_of cfg94) (mkProg its' (Some e_org) None None None []) = MOk code 1) /\
+  (lex_ascii source' = Some (ldoc_toks 0%nat es')).
+Proof.
+  destruct hypotheses_hold as [H1 [H2 [_ [_ [_ [H6 [H7 _]]]]]]].
+  split; [exact H1|]. split; [exact H2|]. split.
+  { apply R2equ; [reflexivity|reflexivity|repeat constructor; cbn; lia|].
+    apply R2equ; [reflexivity|reflexivity|repeat constructor; cbn; lia|].
+    apply (R2assert spell (Some e_org) (s2t ";assert step - 4") e_cond).
+    { split; [reflexivity|]. split; [vm_compute; reflexivity|repeat constructor; cbn; lia]. }
+    apply (R2org spell e_org); [reflexivity|repeat constructor; cbn; lia|].
+    apply R2instr; [repeat split; reflexivity|]. apply R2instr; [repeat split; reflexivity|].
+    apply R2instr; [repeat split; try reflexivity; cbn; lia|apply R2nil]. }
+  split; [repeat constructor|]. split; [repeat constructor|]. split; [exact H6|]. split; [exact H7|].
+  split; vm_compute; reflexivity.
+Qed.
+Example conclusion' : compile_warrior cfg94 source' = COk code 1 (mkPM [] [] []).
+Proof.
+  destruct hypotheses_hold' as [H1 [H2 [H3 [H4 [H5 [H6 [H7 [H8 H9]]]]]]]].
+  exact (C03_programs_with_equ_tokens_partial cfg94 spell (Some e_org) its' es' 0%nat None None code 1%Z source' rkN H1 H2 H3 H4 H5 H6 H7 H8 H9).
+Qed.
+(* and a condition that is zero leaves the program without a meaning: it must be refused, and is *)
+Example zero_condition_refused :
+  meaning (mconf_of cfg94) (mkProg [IEqu 21 e_gap; IAssert (NBin OSub (NName 21) (NLit 4)); IInstr (mkIL [] DAT None (mkOp None (NLit 0)) None)] None None None None []) = MReject
+  /\ compile_warrior cfg94 (s2t "gap equ 3+1" ++ [10%N] ++ s2t ";assert gap-4" ++ [10%N] ++ s2t "dat 0" ++ [10%N]) = CErr.
+Proof. split; vm_compute; reflexivity. Qed.
+End C03AssertExample.
+
 (* ... AND WITH FOR BLOCKS: a text whose tokens unroll, block by block (C08Passes.unrolls: k times the first block of
    the stream is written out, with its count taken from the EQU symbols in front of it and the predefined constants),
    to such a document is assembled to what the unrolled program denotes - C03 and C08 together, on the model *)
